@@ -400,10 +400,13 @@ func (en *env) addrOf(e ast.Expr) TV {
 		_ = c
 		en.errf("&x[i] on %T", base.V)
 	case *ast.SelectorExpr:
-		base := en.eval(x.X, nil)
+		base := en.derefVar(en.eval(x.X, nil))
 		if p, ok := base.T.Underlying().(*types.Pointer); ok {
 			pv := r.asPtr(base.V, base.T)
-			st := p.Elem().Underlying().(*types.Struct)
+			st, isStruct := p.Elem().Underlying().(*types.Struct)
+			if !isStruct {
+				en.errf("&x.%s: x points to %s", x.Sel.Name, p.Elem())
+			}
 			for i := 0; i < st.NumFields(); i++ {
 				if st.Field(i).Name() == x.Sel.Name {
 					loc := Loc{Heap: pv.L.Heap + "." + x.Sel.Name, Idxs: pv.L.Idxs, T: st.Field(i).Type()}
@@ -643,7 +646,7 @@ func (en *env) index(x *ast.IndexExpr) TV {
 		}
 	case Scalar:
 		if b.T.Sort == StrSort {
-			return TV{V: Scalar{r.uf("str.at", r.scalarSort(types.Typ[types.Uint8]), b.T, it)}, T: types.Typ[types.Uint8]}
+			return TV{V: Scalar{r.uf("strat$", r.scalarSort(types.Typ[types.Uint8]), b.T, it)}, T: types.Typ[types.Uint8]}
 		}
 	}
 	en.errf("indexing %T", base.V)
@@ -840,7 +843,12 @@ func (en *env) call(x *ast.CallExpr, want types.Type) TV {
 					if s, ok := r.E.strConstValue(v.T); ok {
 						return untypedInt(big.NewInt(int64(len(s))))
 					}
-					return TV{V: Scalar{r.uf("str.len", r.idx(), v.T)}, T: types.Typ[types.Int]}
+					ln := r.uf("strlen$", r.idx(), v.T)
+					if !ln.HasBound {
+						// (typing fact, as for len(s) executed in code)
+						r.assume(c.True(), r.sle(r.idxConst(0), ln))
+					}
+					return TV{V: Scalar{ln}, T: types.Typ[types.Int]}
 				}
 			case PtrV:
 				if at, ok := v.L.T.Underlying().(*types.Array); ok {
@@ -1393,6 +1401,7 @@ func shiftIndexVar(c *smt.Ctx, bv, body, guard *smt.Term) (nb, nbody, nguard *sm
 	}
 	var off *smt.Term
 	good := true
+	shifted := map[*smt.Term]*big.Int{} // index terms off + bv + k with k != 0
 	seen := map[*smt.Term]bool{}
 	var walk func(t *smt.Term)
 	walk = func(t *smt.Term) {
@@ -1402,17 +1411,34 @@ func shiftIndexVar(c *smt.Ctx, bv, body, guard *smt.Term) (nb, nbody, nguard *sm
 		seen[t] = true
 		if t.Op == "select" && has(t.Args[1]) {
 			ix := t.Args[1]
+			// ix == O + bv + k  (k an integer constant, O one term free of bv)
 			var o *smt.Term
-			if ix.Op == "+" && len(ix.Args) == 2 {
-				switch {
-				case ix.Args[0] == bv && !has(ix.Args[1]):
-					o = ix.Args[1]
-				case ix.Args[1] == bv && !has(ix.Args[0]):
-					o = ix.Args[0]
+			if ix != bv {
+				var others []*smt.Term
+				k := new(big.Int)
+				nbv := 0
+				var flat func(t *smt.Term)
+				flat = func(t *smt.Term) {
+					switch {
+					case t == bv:
+						nbv++
+					case t.Op == "+":
+						for _, a := range t.Args {
+							flat(a)
+						}
+					case t.IsConst() && t.Sort == smt.Int:
+						k.Add(k, t.Val)
+					default:
+						others = append(others, t)
+					}
 				}
-			}
-			if o != nil && termMentions(o, bv) {
-				o = nil
+				flat(ix)
+				if nbv == 1 && len(others) == 1 && !termMentions(others[0], bv) {
+					o = others[0]
+					if k.Sign() != 0 {
+						shifted[ix] = k
+					}
+				}
 			}
 			if ix == bv {
 				// a read at bv itself (ghost maps, zero-offset slices) does not prevent the shift
@@ -1438,6 +1464,10 @@ func shiftIndexVar(c *smt.Ctx, bv, body, guard *smt.Term) (nb, nbody, nguard *sm
 		c.Op("+", nil, off, bv): nb,
 		c.Op("+", nil, bv, off): nb,
 		bv:                      c.Op("-", nil, nb, off),
+	}
+	for ix, k := range shifted {
+		// off + bv + k  :=  j + k
+		m[ix] = c.Op("+", nil, nb, c.IntBig(k))
 	}
 	return nb, c.Subst(body, m), c.Subst(guard, m), mixed, true
 }
